@@ -5,6 +5,8 @@ from vp import common, schedcheck
 def run(ctx):
     common.import_repo()
     schedcheck.run(ctx, 'C02')
+    from vp import schedresult
+    schedresult.run(ctx, 150 if ctx.tier == 'quick' else 5000)
 
 
 def replay(ctx, path):
